@@ -98,6 +98,9 @@ func readOne(c *fw.Ctx, u unit, i int64) {
 	}
 	want := u.toTime(i)
 	got := g[1].T
+	if i == -1 || i == 18690 {
+		c.Sample(map[string]interface{}{"unit": u.name, "stored_integer": i, "decoded": got.Format(time.RFC3339Nano), "spec_instant": want.Format(time.RFC3339Nano)})
+	}
 	_, off := got.Zone()
 	if !got.Equal(want) {
 		c.Violation("wrong-instant|read|"+u.name+"|"+signClass(i), fmt.Sprintf("%s: stored integer %d decoded to %s, spec says %s", u.name, i, got.Format(time.RFC3339Nano), want.Format(time.RFC3339Nano)), map[string]interface{}{"unit": u.name, "stored": i})
